@@ -185,26 +185,24 @@ def run(ctx):
     paths = ctx.paths(DM)
     body = ctx.body(DM)
     if paths:
-        rets = ret_paths(paths)
-        for i, p in enumerate(rets):
-            v = const_of(p.end[1])
-            cm = [c for c in p.conds() if is_call(c.term, CMP)]
-            nx = [c for c in p.conds() if c.term[0] == "discr" and is_call(c.term[1], "::next")]
-            if v is True:
-                ok = bool(nx) and nx[-1].fact == ("eq", 0) and all(c.fact == ("eq", True) for c in cm)
-                ctx.check(ok, "D-CONJUNCTION", DM, "true-path-%d" % i, "true only after the bound loop is exhausted", "matches() returns true without every bound having been checked", fn_span(body))
-            elif v is False and cm:
-                ok = cm[-1].fact == ("eq", False)
-                ctx.check(ok, "D-CONJUNCTION", DM, "false-on-failed-bound", "a failed bound returns false", "matches() returns false although the last bound checked held", fn_span(body), nontrivial=False)
-            elif v is None:
-                ctx.violation("D-CONJUNCTION", DM, "non-constant-return-%d" % i, "matches() returns a non-constant value %s" % term_str(p.end[1])[:80], fn_span(body))
-        backs = [p for p in paths if p.end[0] == "back"]
-        okb = bool(backs) and all(any(is_call(c.term, CMP) and c.fact == ("eq", True) for c in p.conds()) for p in backs)
-        ctx.check(okb, "D-CONJUNCTION", DM, "continue-only-on-pass", "the loop continues only when the bound held", "the bound loop continues past a failed bound (or no loop exists)", fn_span(body))
-        calls = [e for p in paths for e in p.calls(CMP)]
-        ok = bool(calls)
-        for e in calls:
-            ok = ok and is_call(strip_refs(e.args[0]), "dewey::DeweyVersion::new") and mentions(e.args[1], lambda s: s[0] == "field" and s[3] == "op") and mentions(e.args[2], lambda s: s[0] == "field" and s[3] == "version") \
-                and mentions(e.args[1], lambda s: is_call(s, "::next")) and mentions(e.args[2], lambda s: is_call(s, "::next"))
-        ctx.check(ok, "D-CONJUNCTION", DM, "cmp-arguments", "dewey_cmp(pkg version, bound.op, bound.version) for each bound of self.matches",
-                  "dewey_cmp is not called as (package version, bound operator, bound version) for each stored bound", fn_span(body))
+        # matches() = (name splits and base agrees) and FOR ALL stored bounds: dewey_cmp(version, bound.op, bound.version); the quantifier is
+        # recognised in either spelling (for-loop with `return false`, or `.iter().all(..)`) and checked on its normal form
+        q = quantifier(ctx, DM, paths)
+        ctx.check(q is not None and q["kind"] == "all" and not q["neg"], "D-CONJUNCTION", DM, "for-all-bounds", "true iff every bound holds (%s form)" % (q["form"] if q else "?"),
+                  "Dewey::matches is not `every stored bound must hold`: %s" % ("no universally quantified test over the bounds was recognised" if q is None else
+                                                                               "the quantifier is `%s`%s" % (q["kind"], " of the negated test" if q["neg"] else "")), fn_span(body))
+        if q is not None:
+            ctx.check(isinstance(q["coll"], tuple) and q["coll"][0] == "field" and q["coll"][3] == "matches" and strip_refs(q["coll"][1]) in (("param", 1), ("deref", ("param", 1))),
+                      "D-CONJUNCTION", DM, "over-self-matches", "the bounds are self.matches", "the bounds iterated are %s, not self.matches" % term_str(q["coll"])[:80], fn_span(body), nontrivial=False)
+            t = q["pred"]
+            ok = is_call(t, CMP) and len(call_args(t)) == 3
+            if ok:
+                a0, a1, a2 = call_args(t)
+                ok = is_call(strip_refs(a0), "dewey::DeweyVersion::new") and mentions(a1, lambda s: s[0] == "field" and s[3] == "op") and mentions(a2, lambda s: s[0] == "field" and s[3] == "version") \
+                    and is_elem(a1) and is_elem(a2) and not is_elem(a0)
+            ctx.check(ok, "D-CONJUNCTION", DM, "cmp-arguments", "dewey_cmp(pkg version, bound.op, bound.version) for each bound of self.matches",
+                      "the per-bound test is %s, not dewey_cmp(package version, bound operator, bound version)" % term_str(t)[:120], fn_span(body))
+            # nothing else can make the answer true: every `true` comes from the quantifier (early returns before it are all `false`)
+            others = [p for p in ret_paths(paths) if const_of(p.end[1]) is True and not any(c.term[0] == "discr" and is_call(strip_refs(c.term[1]), "::next") for c in p.conds())]
+            ctx.check(not others, "D-CONJUNCTION", DM, "no-other-true", "no path answers true without consulting the bounds",
+                      "matches() has a path that returns true without the bounds having been checked", fn_span(body), nontrivial=False)
